@@ -71,7 +71,7 @@ func (p *planner) decorate(sc *Scenario, t *Target, rng *rand.Rand, variant stri
 	switch variant {
 	case "plain":
 	case "kill", "killrerun":
-		sc.KillAt = 1 + rng.Intn(countPartials(t.Dir, t.Mode))
+		sc.KillAt = 1 + rng.Intn(max(1, countPartials(t.Dir, t.Mode)/2))
 		sc.Rerun = variant == "killrerun"
 	case "soft":
 		for _, k := range softLeftovers {
@@ -80,7 +80,7 @@ func (p *planner) decorate(sc *Scenario, t *Target, rng *rand.Rand, variant stri
 			}
 		}
 		if rng.Intn(3) == 0 {
-			sc.KillAt = 1 + rng.Intn(countPartials(t.Dir, t.Mode))
+			sc.KillAt = 1 + rng.Intn(max(1, countPartials(t.Dir, t.Mode)/2))
 		}
 	case "hard":
 		k := hardLeftovers[rng.Intn(len(hardLeftovers))]
@@ -96,7 +96,7 @@ func (p *planner) decorate(sc *Scenario, t *Target, rng *rand.Rand, variant stri
 		var root [32]byte
 		rng.Read(root[:])
 		big := pub + 256*int64(2+rng.Intn(3))
-		for n := int64(0); n <= big/256; n++ {
+		for n := pub / 256; n <= big/256; n++ {
 			Plant(t.Dir, t.Mode, TileID{"hash", 0, n, TW}, rng)
 			Plant(t.Dir, t.Mode, TileID{"data", 0, n, TW}, rng)
 		}
